@@ -28,9 +28,11 @@ package model
 //@      (forall k int :: 0 <= k && k < len(a) ==> r.Min <= a[k].Criteria[id] && a[k].Criteria[id] <= r.Max)
 //@   && (len(a) > 0 ==> (exists k int :: 0 <= k && k < len(a) && r.Min == a[k].Criteria[id]) && (exists k int :: 0 <= k && k < len(a) && r.Max == a[k].Criteria[id]))
 //@   && (len(a) == 0 ==> r.Min == 0.0 && r.Max == 0.0)
+//@   opaque
 
 //@ func CriteriaValuesRange
 //@   property C14 C16 C17 C13
+//@   ensures [nonnil] result != nil
 //@   ensures [declared_first] criterion.ValuesRange != nil ==> result == criterion.ValuesRange
 //@   ensures [observed_bounds] criterion.ValuesRange == nil ==> fresh(result) && (forall k int :: 0 <= k && k < len(*alternatives) ==>
 //@              result.Min <= (*alternatives)[k].Criteria[criterion.Id] && (*alternatives)[k].Criteria[criterion.Id] <= result.Max)
@@ -38,6 +40,7 @@ package model
 //@              (exists k int :: 0 <= k && k < len(*alternatives) && result.Min == (*alternatives)[k].Criteria[criterion.Id])
 //@           && (exists k int :: 0 <= k && k < len(*alternatives) && result.Max == (*alternatives)[k].Criteria[criterion.Id])
 //@   ensures [observed_empty] criterion.ValuesRange == nil && len(*alternatives) == 0 ==> result.Min == 0.0 && result.Max == 0.0
+//@   ensures [observed] criterion.ValuesRange == nil ==> unfold(observed(*result, *alternatives, criterion.Id))
 //@   loop 1 invariant [zero] iter == 0 ==> valRange.Min == 0.0 && valRange.Max == 0.0
 //@   loop 1 invariant [bounds] forall k int :: 0 <= k && k < iter ==>
 //@              valRange.Min <= (*alternatives)[k].Criteria[criterion.Id] && (*alternatives)[k].Criteria[criterion.Id] <= valRange.Max
@@ -52,3 +55,96 @@ package model
 //@   ensures [len] len(result) == len(p.ConsideredAlternatives) + len(p.NotConsideredAlternatives)
 //@   ensures [concat] forall k int :: 0 <= k && k < len(result) ==> result[k] == altAt(p.ConsideredAlternatives, p.NotConsideredAlternatives, k)
 //@   ensures [C09 fresh] fresh(result)
+
+// ---- weights.go
+
+//@ func (*Weights).Fetch
+//@   property C07 C15 C16 C18 C20
+//@   panics_iff [missing] !(key in *w)
+//@   ensures [value] result == (*w)[key]
+
+//@ func (*Weights).Copy
+//@   property C16 C07 C09
+//@   ensures [copy] fresh(result) && fresh(*result) && (forall k string :: (k in *result <==> k in *w) && (k in *w ==> (*result)[k] == (*w)[k]))
+//@   loop 1 invariant [copied] forall k string :: seen(k) ==> (k in result && result[k] == (*w)[k])
+//@   loop 1 invariant [only] forall k string :: k in result ==> seen(k)
+//@   loop 1 invariant [ctx] fresh(result) && result != nil
+
+//@ func (*Weights).PreserveOnly
+//@   property C07 C15
+//@   panics_iff [missing] exists i int :: 0 <= i && i < len(*criteria) && !((*criteria)[i].Id in *w)
+//@   ensures [restricted] fresh(result) && fresh(*result) && (forall i int :: 0 <= i && i < len(*criteria) ==> (*criteria)[i].Id in *result && (*result)[(*criteria)[i].Id] == (*w)[(*criteria)[i].Id])
+//@   ensures [only] forall k string :: k in *result ==> exists i int :: 0 <= i && i < len(*criteria) && (*criteria)[i].Id == k
+//@   loop 1 invariant [restricted] forall i int :: 0 <= i && i < iter ==> (*criteria)[i].Id in *w && (*criteria)[i].Id in cpy && cpy[(*criteria)[i].Id] == (*w)[(*criteria)[i].Id]
+//@   loop 1 invariant [only] forall k string :: k in cpy ==> exists i int :: 0 <= i && i < iter && (*criteria)[i].Id == k
+//@   loop 1 invariant [ctx] fresh(cpy) && cpy != nil
+
+//@ func (*Weights).Merge
+//@   property C07 C18
+//@   panics_iff [overlap] exists k string :: k in *w && k in *other
+//@   ensures [union] fresh(result) && fresh(*result) && (forall k string :: (k in *result <==> (k in *w || k in *other)))
+//@   ensures [values] forall k string :: (k in *w ==> (*result)[k] == (*w)[k]) && (k in *other ==> (*result)[k] == (*other)[k])
+//@   loop 1 invariant [copied] forall k string :: seen(k) ==> (k in result && result[k] == (*w)[k])
+//@   loop 1 invariant [only] forall k string :: k in result ==> seen(k)
+//@   loop 1 invariant [ctx] fresh(result) && result != nil
+//@   loop 2 invariant [first] forall k string :: k in *w ==> (k in result && result[k] == (*w)[k])
+//@   loop 2 invariant [second] forall k string :: seen(k) ==> (k in result && result[k] == (*other)[k] && !(k in *w))
+//@   loop 2 invariant [only] forall k string :: k in result ==> (k in *w || seen(k))
+//@   loop 2 invariant [ctx] fresh(result) && result != nil
+
+//@ pred observedAll(r utils.ValueRange, a []AlternativeWithCriteria, b []AlternativeWithCriteria, id string) =
+//@      (forall k int :: 0 <= k && k < len(a) + len(b) ==> r.Min <= altAt(a, b, k).Criteria[id] && altAt(a, b, k).Criteria[id] <= r.Max)
+//@   && (len(a) + len(b) > 0 ==> (exists k int :: 0 <= k && k < len(a) + len(b) && r.Min == altAt(a, b, k).Criteria[id])
+//@                            && (exists k int :: 0 <= k && k < len(a) + len(b) && r.Max == altAt(a, b, k).Criteria[id]))
+//@   && (len(a) + len(b) == 0 ==> r.Min == 0.0 && r.Max == 0.0)
+
+// ---- decision-maker.go: lookups
+
+//@ func FetchAlternative
+//@   property C01 C07 C09 C16 C20
+//@   panics_iff [unknown] !(exists k int :: 0 <= k && k < len(*a) && (*a)[k].Id == id)
+//@   ensures [first_match] exists k int :: 0 <= k && k < len(*a) && result == (*a)[k] && (*a)[k].Id == id && (forall j int :: 0 <= j && j < k ==> (*a)[j].Id != id)
+//@   loop 1 invariant [none_before] forall j int :: 0 <= j && j < iter ==> (*a)[j].Id != id
+
+//@ func UpdateAlternatives
+//@   property C07 C09 C16
+//@   panics_iff [unknown] exists i int :: 0 <= i && i < len(*old) && !(exists k int :: 0 <= k && k < len(*newOnes) && (*newOnes)[k].Id == (*old)[i].Id)
+//@   ensures [shape] fresh(result) && fresh(*result) && len(*result) == len(*old)
+//@   ensures [matched] forall i int :: 0 <= i && i < len(*old) ==> (*result)[i].Id == (*old)[i].Id &&
+//@             (exists k int :: 0 <= k && k < len(*newOnes) && (*result)[i] == (*newOnes)[k] && (forall j int :: 0 <= j && j < k ==> (*newOnes)[j].Id != (*old)[i].Id))
+//@   loop 1 invariant [ctx] fresh(res) && len(res) == len(*old)
+//@   loop 1 invariant [found] forall i int :: 0 <= i && i < iter ==> (exists k int :: 0 <= k && k < len(*newOnes) && (*newOnes)[k].Id == (*old)[i].Id)
+//@   loop 1 invariant [matched] forall i int :: 0 <= i && i < iter ==> res[i].Id == (*old)[i].Id &&
+//@             (exists k int :: 0 <= k && k < len(*newOnes) && res[i] == (*newOnes)[k] && (forall j int :: 0 <= j && j < k ==> (*newOnes)[j].Id != (*old)[i].Id))
+
+//@ func FetchAlternatives
+//@   property C01 C09 C20
+//@   panics_iff [unknown] exists i int :: 0 <= i && i < len(*ids) && !(exists k int :: 0 <= k && k < len(*a) && (*a)[k].Id == (*ids)[i])
+//@   ensures [shape] fresh(result) && fresh(*result) && len(*result) == len(*ids) && cap(*result) == len(*ids)
+//@   ensures [matched] forall i int :: 0 <= i && i < len(*ids) ==> (*result)[i].Id == (*ids)[i] && (exists k int :: 0 <= k && k < len(*a) && (*result)[i] == (*a)[k])
+//@   loop 1 invariant [ctx] fresh(results) && len(results) == len(*ids) && cap(results) == len(*ids)
+//@   loop 1 invariant [found] forall i int :: 0 <= i && i < iter ==> (exists k int :: 0 <= k && k < len(*a) && (*a)[k].Id == (*ids)[i])
+//@   loop 1 invariant [matched] forall i int :: 0 <= i && i < iter ==> results[i].Id == (*ids)[i] && (exists k int :: 0 <= k && k < len(*a) && results[i] == (*a)[k])
+
+// ---- criteria / listeners
+
+//@ pred distinctCriteria(c []Criterion) = forall i int, j int :: 0 <= i && i < j && j < len(c) ==> c[i].Id != c[j].Id
+//@ pred rearranged(r []Criterion, c []Criterion) =
+//@      len(r) == len(c) && (forall k int :: 0 <= k && k < len(r) ==> exists j int :: 0 <= j && j < len(c) && r[k] == c[j])
+//@   && (forall i int, j int :: 0 <= i && i < j && j < len(r) ==> r[i].Id != r[j].Id)
+
+// importance of a criterion under a listener (the weight its RankCriteriaAscending reports): uninterpreted
+//@ spec imp(l BiasListener, p *DecisionMakingParams, id string) real
+
+//@ ifacemethod BiasListener.RankCriteriaAscending
+//@   requires distinctCriteria(params.Criteria)
+//@   ensures result != nil && fresh(result) && fresh(*result) && len(*result) == len(params.Criteria)
+//@   ensures forall k int :: 0 <= k && k < len(*result) ==> exists j int :: 0 <= j && j < len(params.Criteria) && (*result)[k].Criterion == params.Criteria[j]
+//@   ensures forall i int, j int :: 0 <= i && i < j && j < len(*result) ==> (*result)[i].Id != (*result)[j].Id && (*result)[i].Weight <= (*result)[j].Weight
+//@   ensures forall k int :: 0 <= k && k < len(*result) ==> (*result)[k].Weight == imp(self, params, (*result)[k].Id)
+
+//@ func (*WeightedCriteria).Criteria
+//@   property C15 C07
+//@   ensures [same_order] fresh(result) && fresh(*result) && len(*result) == len(*w) && forall i int :: 0 <= i && i < len(*w) ==> (*result)[i] == (*w)[i].Criterion
+//@   loop 1 invariant [ctx] fresh(result) && len(result) == len(*w)
+//@   loop 1 invariant [copied] forall i int :: 0 <= i && i < iter ==> result[i] == (*w)[i].Criterion
